@@ -73,7 +73,8 @@ class SegArr:
 class _NPProxy:
   @staticmethod
   def zeros(shape, dtype=None):
-    return SegArr([('zero', 0, shape[0])], (shape[0],), tuple(shape[1:]))
+    return SegArr([('zero', 0, shape[0])], (shape[0],), tuple(shape[1:]),
+                  dtype=dtype if isinstance(dtype, str) else 'f4')
 
   @staticmethod
   def concatenate(parts, axis=0):
@@ -84,7 +85,12 @@ class _NPProxy:
         raise ValueError('concatenate on unflattened')
       segs.extend(p.segs)
       n = n + p.lead[0]
-    return SegArr(segs, (n,), parts[0].rest, parts[0].fn, parts[0].dtype)
+    # numpy promotes when the parts disagree: the result is then neither dtype
+    dt = parts[0].dtype
+    for p in parts[1:]:
+      if p.dtype != dt:
+        dt = 'promoted(%s,%s)' % (dt, p.dtype)
+    return SegArr(segs, (n,), parts[0].rest, parts[0].fn, dt)
 
   @staticmethod
   def prod(xs):
@@ -120,14 +126,16 @@ def pad_shard_unpad(d, b, m, use_m, kwarg, static_ret):
   wrapped function once."""
   seen = []
 
-  def wrapped(params, x, y=None):
-    seen.append((params, x, y))
-    arrs = [x] if y is None else [x, y]
+  def wrapped(params, x, y=None, z=None):
+    seen.append((params, x, y, z))
+    arrs = [x] if y is None else [x, y, z]
     outs = [SegArr(a.segs, a.lead, a.rest, a.fn + 1, a.dtype) for a in arrs]
-    return outs[0] if y is None else {'x': outs[0], 'y': outs[1]}
+    return outs[0] if y is None else {'x': outs[0], 'y': outs[1], 'z': outs[2]}
 
   x = SegArr([('orig', 0, b)], (b,))
   y = SegArr([('orig', 0, b)], (b,), rest=(2, 2))
+  # same per-example shape as x, another dtype
+  z = SegArr([('orig', 0, b)], (b,), dtype='i4')
   old_np, old_jax = JU.np, JU.jax
   JU.np, JU.jax = _NPProxy(), _JaxProxy(d)
   try:
@@ -136,7 +144,7 @@ def pad_shard_unpad(d, b, m, use_m, kwarg, static_ret):
     if use_m:
       kw['min_device_batch'] = m
     if kwarg:
-      out = f('P', x, y=y, **kw)
+      out = f('P', x, y=y, z=z, **kw)
     else:
       out = f('P', x, **kw)
   finally:
@@ -145,8 +153,9 @@ def pad_shard_unpad(d, b, m, use_m, kwarg, static_ret):
     return False
   # what the wrapped function saw
   db_min = (b + d - 1) // d
-  for a in [seen[0][1]] + ([seen[0][2]] if kwarg else []):
-    if len(a.lead) != 2 or a.lead[0] != d:
+  for a, dt in [(seen[0][1], 'f4')] + ([(seen[0][2], 'f4'), (seen[0][3], 'i4')]
+                                       if kwarg else []):
+    if len(a.lead) != 2 or a.lead[0] != d or a.dtype != dt:
       return False
     db = a.lead[1]
     if db < db_min or (use_m and m and db < m) or d * db != a.rows():
@@ -162,8 +171,11 @@ def pad_shard_unpad(d, b, m, use_m, kwarg, static_ret):
     for kind, _, ln in a.segs[1:]:
       if kind != 'zero':
         return False
-  outs = [out] if not kwarg else [out['x'], out['y']]
-  for o in outs:
+  outs = [(out, 'f4')] if not kwarg else [(out['x'], 'f4'), (out['y'], 'f4'),
+                                         (out['z'], 'i4')]
+  for o, dt in outs:
+    if o.dtype != dt:
+      return False
     if static_ret:
       if len(o.lead) != 2 or o.fn != 1:
         return False
@@ -218,7 +230,29 @@ def _source(n, fail_at, log):
     raise SourceError(n)
 
 
-def prefetch_to_device(n, size, fail_at):
+class _Reader:
+  """a source that stays usable after raising (e.g. a reader that reports a corrupt
+  record and could continue with the next one), unlike a generator"""
+
+  def __init__(self, n, fail_at, log):
+    self.n, self.fail_at, self.log, self.i = n, fail_at, log, 0
+
+  def __iter__(self):
+    return self
+
+  def __next__(self):
+    i = self.i
+    self.i = i + 1
+    if i == self.fail_at:
+      self.log.append(('fail', i))
+      raise SourceError(i)
+    if i >= self.n:
+      raise StopIteration
+    self.log.append(('produce', i))
+    return {'a': Shards([i]), 'b': Shards([i + 100])}
+
+
+def prefetch_to_device(n, size, fail_at, reader=False):
   """delivers exactly the source items, in order, each once, then stops; a source
   error at any position reaches the consumer after the items that preceded it;
   never reads more than `size` items ahead"""
@@ -236,7 +270,8 @@ def prefetch_to_device(n, size, fail_at):
   got = []
   err = None
   try:
-    it = JU.prefetch_to_device(_source(n, fail_at, log), size)
+    src = _Reader(n, fail_at, log) if reader else _source(n, fail_at, log)
+    it = JU.prefetch_to_device(src, size)
     try:
       for item in it:
         got.append(item)
@@ -254,6 +289,9 @@ def prefetch_to_device(n, size, fail_at):
     return False
   if fail_at < 0:
     return err is None
+  # nothing is read from the source after it has failed
+  if log and log[-1][0] != 'fail':
+    return False
   return err is not None and err.args == (fail_at,)
 
 
@@ -590,7 +628,7 @@ def obligations(tier):
          funcs=F),
       Ob('prefetch_to_device', prefetch_to_device,
          dict(n=I(0, 5 if quick else 7), size=I(1, 4 if quick else 6),
-              fail_at=I(-1, 5 if quick else 7)), split=('n',), timeout=300,
+              fail_at=I(-1, 5 if quick else 7), reader=B()), split=('n',), timeout=300,
          funcs=G, bounds='source length, buffer size and failing position (-1 = '
                           'no failure; n = fails after the last item) all symbolic'),
       Ob('prefetch_iterator_schedules', prefetch_iterator_schedules,
